@@ -42,6 +42,10 @@ fn main() {
         c20dbg();
         return;
     }
+    if path == "c12dbg" {
+        c12dbg();
+        return;
+    }
     let doc: serde_json::Value = serde_json::from_slice(&std::fs::read(&path).unwrap()).unwrap();
     if doc["property"] == "C07" {
         c07_debug(&path);
@@ -140,4 +144,39 @@ fn c20dbg() {
             println!("quoted {:?}", t.get_string(&txn));
         }
     }
+}
+
+fn c12dbg() {
+    use yrs::undo::Options as UOpts;
+    use yrs::{Doc, GetString, Options, Text, Transact, XmlFragment, XmlTextPrelim};
+    let mut o = Options::with_client_id(yrs::block::ClientID::new(1));
+    o.skip_gc = false;
+    let doc = Doc::with_options(o);
+    let xml = doc.get_or_insert_xml_fragment("xml");
+    let mut uo = UOpts::<()>::default();
+    uo.capture_timeout_millis = 0;
+    let mut mgr = yrs::undo::UndoManager::with_options(uo);
+    mgr.expand_scope(&doc, &xml);
+    let show = |what: &str| {
+        let txn = doc.transact();
+        let blocks: Vec<String> = yrs::verif_hooks::store_blocks(txn.store()).iter().map(|b| format!("{}#{}+{}{:?}{}", b.client.get(), b.clock, b.len, b.kind, if b.deleted { "d" } else { "" })).collect();
+        println!("{}: {:?} blocks {:?}", what, xml.get_string(&txn), blocks);
+    };
+    let t = {
+        let mut txn = doc.transact_mut();
+        let t = xml.insert(&mut txn, 0, XmlTextPrelim::new("a"));
+        t.insert(&mut txn, 0, "b");
+        t
+    };
+    show("created ba");
+    mgr.reset();
+    t.remove_range(&mut doc.transact_mut(), 1, 1);
+    show("removed a");
+    mgr.reset();
+    println!("undo -> {}", mgr.undo_blocking());
+    show("after undo 1");
+    xml.remove_range(&mut doc.transact_mut(), 0, 1);
+    show("removed T");
+    println!("undo -> {}", mgr.undo_blocking());
+    show("after undo 2");
 }
